@@ -407,6 +407,13 @@ func strEq(a, b Str) *Term {
 			// uninterpreted function of codec and payload
 			return Eq(encAtom(a), b.Atom)
 		}
+		// a codec with a byte-level expansion (lower-case hex) can be compared with a byte string
+		if b.Kind == 2 || b.Kind == 0 {
+			if a1, l1, m1, ok := a.asBytes(); ok {
+				a2, l2, m2, _ := b.asBytes()
+				return bytesEqTerm(a1, Idx(0), l1, m1, a2, Idx(0), l2, m2)
+			}
+		}
 		panic(engErr("comparison of an encoded string (" + a.Codec + ") with a non-encoded string"))
 	}
 	if a.Kind == 1 || b.Kind == 1 {
